@@ -63,7 +63,7 @@ CLAIMS = {
                 "exponax/_utils.py: lax.scan as a fold): entry i of rollout is the (i+1)-fold application (shifted with the "
                 "initial state prepended), repeat = last entry = f^n, step counts add, aux inputs are consumed in order / held "
                 "constant, windows = every contiguous slice in order with rejection iff too long, RepeatedStepper = n inner "
-                "steps with dt*n. Variable aux with include_init (entry 0 the initial state, entry i+1 after consuming aux 0..i) and the regenerated aux rollout (wrong-length aux rejected). Correspondence: exact integer bookkeeping steppers for every (n, flags), pytree leaves, "
+                "steps with dt*n. Variable aux with include_init (entry 0 the initial state, entry i+1 after consuming aux 0..i) and the regenerated aux rollout (wrong-length aux rejected). RepeatedStepper against the physical loop (Properties/C14_physical.lean, general D, N, between the model transforms): a half spectrum is realisable iff it is the spectrum of a real state iff rfftn(irfftn .) fixes it; if the Fourier step preserves realisable spectra, irfftn(step^n(rfftn u)) = (irfftn.step.rfftn)^n(u) for every n; linear steps qualify iff the symbol is Hermitian on the self-conjugate columns (every g(-k)=conj g(k) on odd grids, even-order symbols on every grid), ETD-type steps with a real nonlinearity too; counterexample at the Nyquist bin of an even grid. Correspondence: exact integer bookkeeping steppers for every (n, flags), pytree leaves, "
                 "every (T, window) pair; RepeatedStepper numerically vs n model steps.",
         "technique": "Lean 4 proof (induction over fold model) + exact model/implementation correspondence",
         "design_ref": "DESIGN.md §5 C14",
@@ -119,7 +119,7 @@ CLAIMS = {
                 "convection term is divergence-free for every input, with and without Kolmogorov injection; every regenerated "
                 "ETDRK stage formula (orders 0-4) maps divergence-free spectra to divergence-free spectra for any nonlinear map with "
                 "divergence-free output, hence any rollout length. make_incompressible REGENERATED from _spectral.py is that "
-                "projection between the model transforms. Instantiated: every ETDRK order and rollout of the 3-D velocity stepper (N = the rotational term, with or without injection) preserves divergence-freeness. Correspondence: Leray, make_incompressible, ProjectedConvection3d, "
+                "projection between the model transforms; with indexing='xy' (Properties/C10_xy.lean, D >= 2) it is the 'ij' projection of the field with channels 0 and 1 exchanged, divergence-free in the meshgrid convention and idempotent in Fourier space, and in physical space at every mode of Hermitian weight 2 / at every mode for real fields on odd grids (also newly for 'ij'). Instantiated: every ETDRK order and rollout of the 3-D velocity stepper (N = the rotational term, with or without injection) preserves divergence-freeness. Correspondence: Leray, make_incompressible, ProjectedConvection3d, "
                 "NavierStokesVelocity, KolmogorovFlowVelocity vs the model.",
         "technique": "Lean 4 proof (per-mode linear algebra + induction over ETDRK stages / rollout) + correspondence",
         "design_ref": "DESIGN.md §5 C10",
